@@ -4,6 +4,8 @@ package main
 
 import (
 	"fmt"
+	"os"
+	"path/filepath"
 	"math/big"
 	"sort"
 	"strconv"
@@ -29,6 +31,7 @@ func vKey(tag string) []byte                               { return nil }
 func vContractHash(name string) []byte                     { return nil }
 func vAlphabetAcct() []byte                                { return nil }
 func vCommitteeAcct() []byte                               { return nil }
+func vIRMajorityAcct() []byte                              { return nil }
 func vMemberAcct(i int) []byte                             { return nil }
 func vMemberKey(i int) []byte                              { return nil }
 func vGasHash() []byte                                     { return nil }
@@ -55,7 +58,9 @@ func vSigBy(tag string, who int, msg []byte) []byte        { return nil }
 func vSigMembers(tags ...string)                           {}
 func vBlob(tag string, marker int) []byte                  { return nil }
 func vKernel(name string, args ...any) (bool, any)         { return false, nil }
-func vUpdateFrom(contract string, oldVersion int, args ...any) bool { return false }
+func vDeployVersion(contract string, version int, args ...any) {}
+func vUpdateFrom(contract string, oldVersion int, data ...any) (bool, any) { return false, nil }
+func vRepoVersion() int                                    { return 0 }
 func vHeight() int                                         { return 0 }
 func vEq(a, b []byte) bool                                 { return false }
 func vSha256(b []byte) []byte                              { return nil }
@@ -216,6 +221,14 @@ func (e *Engine) vcall(fn *ssa.Function, s *St, in *ssa.Call, ip int, short stri
 	case "vCommitteeAcct":
 		e.worldUsed = true
 		return set(constBytes(string(e.world.committee.ScriptHash().BytesBE())))
+	case "vIRMajorityAcct": // n/2+1 multi-signature account of the designated Inner Ring (NeoFSAlphabet role) keys
+		e.worldUsed = true
+		pubs := e.irPubs()
+		h, ok := e.world.multisigHash(len(pubs)/2+1, pubs)
+		if !ok {
+			panic("vIRMajorityAcct: no Inner Ring designated")
+		}
+		return set(constBytes(string(h)))
 	case "vMemberAcct":
 		e.worldUsed = true
 		return set(constBytes(string(e.world.memberAcct(cInt(args[0])))))
@@ -302,16 +315,33 @@ func (e *Engine) vcall(fn *ssa.Function, s *St, in *ssa.Call, ip int, short stri
 			return TupleV{[]Value{BoolV{tTrue}, o.val}}, false
 		})
 		return next, fin, false
-	case "vDeploy":
+	case "vRepoVersion": // the repository version (VERSION file) as the contracts encode it
+		data, err := os.ReadFile(filepath.Join(repoRoot, "VERSION"))
+		if err != nil {
+			panic(err)
+		}
+		var ma, mi, pa int
+		if _, err := fmt.Sscanf(strings.TrimSpace(string(data)), "v%d.%d.%d", &ma, &mi, &pa); err != nil {
+			panic("VERSION: " + err.Error())
+		}
+		return set(IntV{I(int64(ma*1000000 + mi*1000 + pa))})
+	case "vDeploy", "vDeployVersion":
 		e.worldUsed = true
 		c := tag()
 		dargs := e.listArgs(s.State, args[1])
+		if short == "vDeployVersion" {
+			dargs = e.listArgs(s.State, args[2])
+		}
 		if e.model != nil {
 			goArgs := make([]any, len(dargs))
 			for i, a := range dargs {
 				goArgs[i] = toGoHeap(a, s.State)
 			}
-			e.world.deploy(c, goArgs)
+			if short == "vDeployVersion" {
+				e.world.deployOld(c, args[1].(IntV).t.n.Int64(), goArgs)
+			} else {
+				e.world.deploy(c, goArgs)
+			}
 			return set(UnitV{})
 		}
 		e.signers = e.deploySigners()
@@ -638,27 +668,36 @@ func (e *Engine) vcall(fn *ssa.Function, s *St, in *ssa.Call, ip int, short stri
 			return set(BoolV{B(e.world.effects())})
 		}
 		return set(BoolV{e.txEffects(s)})
-	case "vUpdateFrom": // vUpdateFrom(contract, oldVersion, extra deploy-data...): the contract's _deploy(data, isUpdate=true) as management.update runs it
+	case "vUpdateFrom": // vUpdateFrom(contract, oldVersion, data...): the contract's update(nef, manifest, data) where the running (old) code reports oldVersion
 		c := tag()
+		data := e.listArgs(s.State, args[2])
 		if e.model != nil {
-			panic("replay: vUpdateFrom has no VM counterpart yet")
-		}
-		e.signers = e.deploySigners()
-		e.cur = e.index(c)
-		e.callers = []int{-1}
-		e.txTime = Add(s.lastTime, I(1))
-		dargs := append(append([]Value(nil), e.listArgs(s.State, args[2])...), args[1])
-		data := ListV{e.alloc(s.State, ArrObj{dargs})}
-		store0 := s.store
-		outs := e.runFrame(e.linked[c].Func("_deploy"), []Value{data, BoolV{tTrue}}, s.State)
-		next, fin := e.continueWith(s, in, ip, outs, func(o Out) (Value, bool) {
-			if o.panicked {
-				o.State.store = store0
-				return BoolV{tFalse}, false
+			pending := s.State.pending
+			s.State.pending = nil
+			var hs [][]byte
+			for _, sg := range pending {
+				if sg.present.isC() && sg.present.b {
+					h, _ := isConstBytes(BytesV{sg.hash})
+					hs = append(hs, []byte(h))
+				}
 			}
-			return BoolV{tTrue}, false
-		})
-		return next, fin, false
+			goArgs := make([]any, len(data))
+			for i, a := range data {
+				goArgs[i] = toGoHeap(a, s.State)
+			}
+			ok, fault := e.world.update(c, hs, goArgs)
+			e.rlog(fmt.Sprintf("  tx %s.update(<new nef>, <new manifest>, %s) signers=%d -> ok=%v %s", c, showArgs(goArgs), len(hs), ok, fault))
+			s.env[in] = TupleV{[]Value{BoolV{B(ok)}, NullV{}}}
+			return nil, nil, true
+		}
+		e.updateFromVersion = args[1].(IntV).t
+		var dataV Value = NullV{}
+		if len(data) > 0 {
+			dataV = ListV{e.alloc(s.State, ArrObj{append([]Value(nil), data...)})}
+		}
+		next, fin, cont := e.invoke(s, in, ip, "vInvoke", c, "update", []Value{constBytes("nef"), constBytes("manifest"), dataV})
+		e.updateFromVersion = nil
+		return next, fin, cont
 	}
 	panic("unknown harness function " + short)
 }
